@@ -347,6 +347,7 @@ type c13Cfg struct {
 	silent int
 	noSack bool
 	ecn    bool // the source host requests ECN: the target's SYN-ACK carries ECE
+	unreach int // router that rejects everything for the destination (IPv4: REJECT rule, IPv6: `unreachable` route; 0 = none): it answers every probe that gets that far with destination-unreachable
 	run    func(l *lab) (got c13Out, problem string)
 }
 
@@ -482,6 +483,56 @@ func checkC13() fw.Check {
 					return o, judgeRun(o.runs[0], l.expectChain(1, v6)[:m], 1, false)
 				}})
 			}
+			// the target is unreachable behind router 2 (reject rule / unreachable route): that router answers every probe that
+			// reaches it with destination-unreachable. It is a router, not the target: no entry may be marked as the
+			// destination, so the list runs to the maximum TTL, and the end-to-end probe reports "no answer"
+			for _, pm := range [][3]string{{"udp", "", ""}, {"udp", "", "v6"}, {"tcp", "syn", ""}, {"icmp", "", ""}} {
+				pm := pm
+				if n0 < 3 {
+					break
+				}
+				cfgs = append(cfgs, c13Cfg{name: fmt.Sprintf("unreachable-behind-router-%s%s%s/N%d", pm[0], pm[1], pm[2], n0), n: n0, unreach: 2, run: func(l *lab) (c13Out, string) {
+					v6 := pm[2] == "v6"
+					m := l.n + 2
+					o := l.helper(map[string]any{"hostname": l.dest(v6), "port": 8080, "protocol": pm[0], "tcp_method": pm[1], "min_ttl": 1, "max_ttl": m, "timeout_ms": 1000, "queries": 1, "e2e": 1, "want_v6": v6})
+					if o.err != "" {
+						return o, "library call failed: " + o.err
+					}
+					if len(o.runs) != 1 {
+						return o, "expected one run"
+					}
+					hops := o.runs[0]
+					if len(hops) != m {
+						return o, fmt.Sprintf("%d entries for TTL window 1..%d although the target never answered: got %s", len(hops), m, fmtC13(hops))
+					}
+					for i, h := range hops {
+						if h.IsDest {
+							return o, fmt.Sprintf("ttl %d (%s) is marked as the destination; the target %s never answered: got %s", h.TTL, h.IP, l.dest(v6), fmtC13(hops))
+						}
+						if h.TTL != i+1 || h.RTT < 0 {
+							return o, fmt.Sprintf("entry %d has ttl %d rtt %v", i, h.TTL, h.RTT)
+						}
+						if h.IP != "" && h.IP != l.hopAddr(1, v6) && h.IP != l.hopAddr(2, v6) {
+							return o, fmt.Sprintf("ttl %d reports %s, which is not on the path before the unreachable route: got %s", h.TTL, h.IP, fmtC13(hops))
+						}
+					}
+					if hops[0].IP != l.hopAddr(1, v6) {
+						return o, fmt.Sprintf("ttl 1 reports %q, the path has %q", hops[0].IP, l.hopAddr(1, v6))
+					}
+					if pm[0] == "udp" {
+						// destination-unreachable answers to UDP probes are hops of the responding router
+						for _, h := range hops[1:] {
+							if h.IP != l.hopAddr(2, v6) {
+								return o, fmt.Sprintf("ttl %d reports %q, router 2 (%s) answered it with destination-unreachable: got %s", h.TTL, h.IP, l.hopAddr(2, v6), fmtC13(hops))
+							}
+						}
+					}
+					if len(o.rtts) != 1 || o.rtts[0] != 0 {
+						return o, fmt.Sprintf("end-to-end probe to an unreachable target reported %v", o.rtts)
+					}
+					return o, ""
+				}})
+			}
 			// one router silent
 			for _, proto := range []string{"icmp", "udp", "tcp"} {
 				proto := proto
@@ -604,9 +655,18 @@ func runC13(c *fw.Ctx, id, tag string, cfg c13Cfg) {
 		l.sysctl(0, "net.ipv4.tcp_ecn=1")
 		l.sysctl(l.n+1, "net.ipv4.tcp_ecn=1")
 	}
+	if cfg.unreach > 0 {
+		// IPv4: a REJECT rule, not an `unreachable` route - the kernel rate-limits route errors (ip_rt_error_cost /
+		// ip_rt_error_burst: five, then one per second; global, not settable per namespace), which made hops vanish
+		run("ip", "netns", "exec", l.ns[cfg.unreach], "iptables", "-A", "FORWARD", "-d", l.dest(false), "-j", "REJECT", "--reject-with", "icmp-host-unreachable")
+		run("ip", "-n", l.ns[cfg.unreach], "-6", "route", "add", "unreachable", l.dest(true)+"/128")
+	}
 	// warm-up: neighbour tables (ARP/NDP) along the path; not judged
 	for _, v6 := range []bool{false, true} {
 		for try := 0; try < 4; try++ {
+			if cfg.unreach > 0 && try > 0 {
+				break // the destination cannot answer
+			}
 			args := []string{"-P", "udp", "-q", "1", "-Q", "0", "-m", fmt.Sprint(l.n + 2), "--timeout", "400"}
 			if v6 {
 				args = append(args, "--ipv6")
